@@ -493,3 +493,82 @@ def rule_hold_notify(la, res, f, cv_key, fields, mapped_enum="ChannelState_Mappe
                      "so a writer sleeping on the old hold position is never woken although its request may fit now"
                      % (f.name, key_str(a.key), key_str(cv_key)), {"path_blocks": list(bad)})
     return n
+
+
+def full_reads(site):
+    r = set(site["reads"])
+    for o in site.get("outer", []):
+        r |= o["reads"]
+    return r
+
+
+def rule_l_recheck_nested(la, res, site, rule="L-RECHECK"):
+    """A re-check loop nested inside the loop that evaluates the full predicate
+    (do wait while (counter unchanged) inside while (!has_space)): after a wake-up
+    the waiter can go back to sleep without re-evaluating the outer predicate.
+    That is sound only if every change that can make the outer predicate false
+    also changes something the inner loop tests: every store (by another
+    function, under the lock) to a field the outer predicate reads and the inner
+    one does not must be accompanied, on every path through it, by a store to a
+    field the inner predicate reads."""
+    f = site["fn"]
+    outer = site.get("outer") or []
+    if not outer:
+        return 0
+    inner_r = set(site["reads"])
+    outer_r = set()
+    for o in outer:
+        outer_r |= o["reads"]
+    missing = {k for k in outer_r if not any(covers(k, r) or covers(r, k) for r in inner_r)}
+    inst = "%s: the re-check loop nested around the wait notices every change of the outer predicate" % f.name
+    where = f.loc(site["stmt"])
+    if not missing:
+        res.oblige(rule, inst, True, "the inner loop reads every field the outer predicate reads", where)
+        return 1
+    bumps = {k for k in inner_r if not any(covers(k, r) for r in outer_r)}   # e.g. a release counter
+    n = 0
+    bad = []
+    for g in la.prog.all_funcs():
+        if g is f:
+            continue
+        accs, _, _ = la.accesses(g)
+        stores = [(a, held) for a, held in accs if a.mode == "w" and any(covers(a.key, m) for m in missing)]
+        if not stores or la.is_ctor_dtor(g, site["lock"]):
+            continue
+        # registering a reader can only shrink the free space: it cannot end the writer's wait
+        if any(k == ("channel", "holds.n") and m == "w" for (k, m) in la.effects(g)) and \
+                not any(k == ("channel", "head") and m == "w" for (k, m) in la.effects(g)):
+            direct = [(a, h) for a, h in stores if not a.via]
+            own_reg = all(str(a.key[1]).startswith("holds") for a, h in direct)
+            if own_reg and g.name != "channel_read_map":
+                continue
+        stores = [(a, h) for a, h in stores if not (a.via and any(k == ("channel", "holds.n") and m == "w" for (k, m) in la.effects(la.prog.resolve(a.via, g) or g)))]
+        bump_pos = [(a.block, a.idx) for a, held in accs if a.mode == "w" and any(covers(a.key, b) for b in bumps)]
+
+        def is_bump(st_, g=g, bump_pos=bump_pos):
+            for b_, lst in g.blocks.items():
+                pass
+            return False
+        for a, held in stores:
+            n += 1
+            from . import paths as _p
+            pos_set = set(bump_pos)
+
+            def at_bump(s_, g=g, pos_set=pos_set):
+                for (bb, ii) in pos_set:
+                    if g.blocks[bb].stmts[ii] is s_:
+                        return True
+                return False
+            before, _ = _p.all_paths_pass(g, "entry", {(a.block, a.idx)}, at_bump)
+            after, _ = _p.all_paths_pass(g, (a.block, a.idx), "exit", at_bump)
+            if not (before or after):
+                bad.append((g, a))
+    if bad:
+        g, a = bad[0]
+        res.fail(rule, inst, "%s|%s|nested|%s" % (rule, f.name, g.name), a.loc(),
+                 "the wait in %s sits in an inner re-check loop that tests only %s; %s changes %s - which the outer predicate reads - without changing anything the inner loop tests, "
+                 "so the wake-up that announces this change is swallowed and the writer sleeps on although its request may fit (%d such store(s))"
+                 % (f.name, sorted(map(key_str, inner_r)), g.name, key_str(a.key), len(bad)))
+    else:
+        res.oblige(rule, inst, True, "%d store(s) to fields only the outer predicate reads, each accompanied by a store the inner loop tests" % n, where)
+    return 1
